@@ -12,9 +12,9 @@ from ..runner import Result
 
 ID = "C20"
 LEVEL = "exploration"
-BUDGET = {"quick": {"cases": 5000}, "thorough": {"cases": 80000, "soft_deadline": 1500}}
+BUDGET = {"quick": {"cases": 10000}, "thorough": {"cases": 120000, "soft_deadline": 1500}}
 RULE = (
-    "case = (network n<=6 [7] weighted to diamond/deep cores, history A of 1-6 expansion/skip/block/scc/build calls, attractor queries, reclaim and pickle, second "
+    "case = (network n<=7 weighted to diamond/deep cores, history A of 1-6 expansion/skip/block/scc/build calls, attractor queries, reclaim and pickle, second "
     "history B on the same or a mutated network, find_node queries, optional final build()); oracle after every step: depth(i) = "
     "longest root->i path recomputed from the DAG, depth() = max, ids contiguous from root 0, len, stub/expanded partition, "
     "find_node = exact space match; at the end is_subgraph/is_isomorphic = node+edge set inclusion/equality, and summary() after "
@@ -26,11 +26,13 @@ OPS = ops.PLAIN_OPS + ops.SKIP_OPS + ops.STRUCT_OPS + ("bfs", "dfs", "succ", "su
 
 @st.composite
 def _case(draw, max_n):
-    nj = draw(gen.networks(max_n=max_n, core_weight=3, kinds=("diamond", "deep", "edge2", "maa")))
+    nj = draw(gen.networks(max_n=max_n, core_weight=3, kinds=("diamond", "deep", "edge2", "maa", "raise2", "raise2")))
     n = len(nj["names"])
     c = {
         "net": nj,
-        "steps": draw(ops.steps(OPS, n, 1, 6)),
+        # half of the histories end with an unrestricted bfs/dfs so that long re-discovered paths occur
+        "steps": draw(ops.steps(OPS, n, 1, 6))
+        + draw(st.sampled_from(([], [], [{"op": "bfs", "node": None, "level": None, "size": None}], [{"op": "dfs", "node": None, "stack": None, "size": None}]))),
         "post": draw(ops.steps(OPS, n, 0, 4)),
         "query_sps": draw(st.lists(gen.spaces_of(n, p_fixed=0.5), max_size=3)),
         "final_build": draw(st.booleans()),
@@ -41,7 +43,7 @@ def _case(draw, max_n):
 
 
 def strategy(tier):
-    return _case(6 if tier == "quick" else 7)
+    return _case(7)
 
 
 def describe(case):
